@@ -4,8 +4,11 @@
 import Cvss.Model.Any
 import Cvss.Spec.Grammar
 import Cvss.Spec.RegexPatterns
+import Cvss.Lemmas.Construct
+import Cvss.Lemmas.Regex
+import Cvss.Lemmas.RegexV4
 namespace Cvss.Props.C08
-open Cvss Cvss.Model Cvss.Spec
+open Cvss Cvss.Model Cvss.Spec Cvss.Spec.Regex
 
 /-- per-field membership: every legal `metric:value` string, on its own, is a vector the official
     v2 pattern matches (the pattern is `(F/)*F`) -/
@@ -19,6 +22,137 @@ theorem v30_fields_match :
 
 theorem v31_fields_match :
     ((Grammar.fieldStrings Grammar.g3).all fun (f, _) => Regex.fullMatch Regex.pattern31 (c!"CVSS:3.1/" ++ f)) = true := by
+  decide +kernel
+
+/-! ### the executable matcher decides the declarative semantics -/
+
+/-- Brzozowski-derivative matching is sound and complete for the declarative semantics -/
+theorem fullMatch_iff (r : Re) (s : Str) : fullMatch r s = true ↔ Matches r s :=
+  fullMatch_iff_matches r s
+
+/-! ### every ACCEPTED v2 / v3 string conforms to the official pattern
+    (so in particular the clean vector, the vector part of the Red Hat notation and the interactive
+    builder's result, which C07 / C16 show are accepted) -/
+
+/-- the last component of a right-nested sequence: the field alternation `F` of `…(F/)*F` -/
+def lastSeq : Re → Re
+  | .seq _ b => lastSeq b
+  | r => r
+
+def fieldRe20 : Re := lastSeq pattern20
+def fieldRe30 : Re := lastSeq pattern30
+def fieldRe31 : Re := lastSeq pattern31
+
+theorem pattern20_eq : pattern20 = .seq (.star (.seq fieldRe20 (.chr '/'))) fieldRe20 := by
+  decide +kernel
+
+theorem pattern30_eq : pattern30 =
+    Re.seqs [.chr 'C', .chr 'V', .chr 'S', .chr 'S', .chr ':', .chr '3', .any, .chr '0', .chr '/',
+      .seq (.star (.seq fieldRe30 (.chr '/'))) fieldRe30] := by
+  decide +kernel
+
+theorem pattern31_eq : pattern31 =
+    Re.seqs [.chr 'C', .chr 'V', .chr 'S', .chr 'S', .chr ':', .chr '3', .any, .chr '1', .chr '/',
+      .seq (.star (.seq fieldRe31 (.chr '/'))) fieldRe31] := by
+  decide +kernel
+
+/-- every legal field string matches the field alternation of the pattern -/
+theorem v2_fieldRe_match :
+    ((Grammar.fieldStrings Grammar.g2).all fun (f, _) => fullMatch fieldRe20 f) = true := by
+  decide +kernel
+
+theorem v30_fieldRe_match :
+    ((Grammar.fieldStrings Grammar.g3).all fun (f, _) => fullMatch fieldRe30 f) = true := by
+  decide +kernel
+
+theorem v31_fieldRe_match :
+    ((Grammar.fieldStrings Grammar.g3).all fun (f, _) => fullMatch fieldRe31 f) = true := by
+  decide +kernel
+
+theorem isField_mem_fieldStrings {g : Grammar.G} {f m : Str} (h : Grammar.IsField g f m) :
+    (f, m) ∈ Grammar.fieldStrings g := by
+  obtain ⟨vs, v, hl, hv, rfl⟩ := h
+  unfold Grammar.fieldStrings
+  rw [List.mem_flatMap]
+  exact ⟨(m, vs), mem_of_lookup_eq_some _ _ _ hl, List.mem_map.2 ⟨v, hv, rfl⟩⟩
+
+theorem fieldsOf_matches {g : Grammar.G} {F : Re}
+    (hF : ((Grammar.fieldStrings g).all fun (f, _) => fullMatch F f) = true) :
+    ∀ fields ms, Grammar.FieldsOf g fields ms → ∀ f ∈ fields, Matches F f := by
+  intro fields
+  induction fields with
+  | nil => intro ms _ f hf; simp at hf
+  | cons f0 fs ih =>
+    intro ms h f hf
+    cases ms with
+    | nil => exact absurd h (by simp [Grammar.FieldsOf])
+    | cons m ms =>
+      simp only [Grammar.FieldsOf] at h
+      rcases List.mem_cons.1 hf with rfl | hf
+      · have := List.all_eq_true.1 hF _ (isField_mem_fieldStrings h.1)
+        exact (fullMatch_iff F f).1 this
+      · exact ih ms h.2 f hf
+
+/-- an accepted string is a prefix of the grammar followed by `(F/)*F` -/
+theorem accepts_shape {g : Grammar.G} {F : Re}
+    (hF : ((Grammar.fieldStrings g).all fun (f, _) => fullMatch F f) = true) {s : Str}
+    (h : Grammar.Accepts g s) :
+    ∃ p rest, p ∈ g.prefixes ∧ s = p ++ rest ∧
+      Matches (.seq (.star (.seq F (.chr '/'))) F) rest := by
+  obtain ⟨ms, ⟨p, fields, hp, rfl, hne, hfo, -⟩, -⟩ := h
+  exact ⟨p, _, hp, rfl, matches_star_sep F '/' fields hne (fieldsOf_matches hF fields ms hfo)⟩
+
+theorem v2_accepted_matches (s : Str) (h : Grammar.Accepts Grammar.g2 s) : Matches pattern20 s := by
+  obtain ⟨p, rest, hp, rfl, hm⟩ := accepts_shape v2_fieldRe_match h
+  have hp' : p = [] := by simpa [Grammar.g2] using hp
+  subst hp'
+  rw [pattern20_eq]
+  exact hm
+
+/-- a v3.0 string matches the 3.0 schema's pattern, a v3.1 string the 3.1 schema's -/
+theorem v30_accepted_matches (s : Str) (h : Grammar.Accepts Grammar.g3 s) (hp : c!"CVSS:3.0/" <+: s) :
+    Matches pattern30 s := by
+  obtain ⟨p, rest, hp', rfl, hm⟩ := accepts_shape v30_fieldRe_match h
+  simp only [Grammar.g3, List.mem_cons, List.not_mem_nil, or_false] at hp'
+  rcases hp' with rfl | rfl
+  · rw [pattern30_eq]
+    refine matches_chr_cons 'C' (matches_chr_cons 'V' (matches_chr_cons 'S' (matches_chr_cons 'S'
+      (matches_chr_cons ':' (matches_chr_cons '3' (matches_any_cons '.' (by decide)
+      (matches_chr_cons '0' (matches_chr_cons '/' ?_))))))))
+    exact hm
+  · exfalso
+    simp [List.cons_prefix_cons] at hp
+
+theorem v31_accepted_matches (s : Str) (h : Grammar.Accepts Grammar.g3 s) (hp : c!"CVSS:3.1/" <+: s) :
+    Matches pattern31 s := by
+  obtain ⟨p, rest, hp', rfl, hm⟩ := accepts_shape v31_fieldRe_match h
+  simp only [Grammar.g3, List.mem_cons, List.not_mem_nil, or_false] at hp'
+  rcases hp' with rfl | rfl
+  · exfalso
+    simp [List.cons_prefix_cons] at hp
+  · rw [pattern31_eq]
+    refine matches_chr_cons 'C' (matches_chr_cons 'V' (matches_chr_cons 'S' (matches_chr_cons 'S'
+      (matches_chr_cons ':' (matches_chr_cons '3' (matches_any_cons '.' (by decide)
+      (matches_chr_cons '1' (matches_chr_cons '/' ?_))))))))
+    exact hm
+
+/-! ### v4.0: the official pattern fixes the field order Base, Threat, Environmental, Supplemental;
+    the CLEAN vector conforms (an accepted input in another order does not, and need not) -/
+
+/-- the clean vector of every parsed v4 metric map matches the official v4.0 pattern; this re-decides the
+    order of `METRICS_ABBREVIATIONS` in the generated table against the pattern -/
+theorem v4_clean_matches (s : Str) (m : MMap) (h : V4.parse s = .ok m) : Matches pattern40 (V4.cleanOf m true) := by
+  obtain ⟨-, -, hl, -, hm⟩ := C04.v4_parse_ok_fields s m h
+  apply clean_matches m
+  · intro k v hkv
+    exact (hl (k, v) (mem_of_lookup_eq_some m k v hkv)).2.1
+  · intro k hk
+    exact Option.isSome_iff_exists.1 ((lookup_isSome_iff_mem_keys m k).2 (hm k hk))
+
+/-- non-vacuity -/
+example : fullMatch pattern40 c!"CVSS:4.0/AV:N/AC:L/AT:N/PR:N/UI:N/VC:H/VI:H/VA:H/SC:H/SI:H/SA:H/E:P/CR:L/MAV:A/S:P/U:Red" = true := by
+  decide +kernel
+example : fullMatch pattern40 c!"CVSS:4.0/AV:N/AC:L/AT:N/PR:N/UI:N/VC:H/VI:H/VA:H/SC:H/SI:H/SA:H/S:P/E:P" = false := by
   decide +kernel
 
 end Cvss.Props.C08
